@@ -33,6 +33,25 @@ theorem call_trace (sc : SpecCfg) (vs : List Value) : (callOnce sc vs).trace = [
   simp only [callOnce, M.tell_andThen, M.pre, M.lift]
   rfl
 
+/-- **From the tokens to the handler call** (`then => f`, non-try macros): whatever the parser accepts (any behaviour of syn;
+    default options), if the handler expression evaluates and the step loop of the parsed program ends with the values `vs`,
+    the code expanded from it defines the handler first, runs the loop, calls the handler exactly once — last — with `vs` in
+    branch order, and returns what the handler returned (or panics with it). -/
+theorem accepted_then_handler (o : Oracle) (toks : Toks) (σ : World) (parent : Option String) (p : Input) (kind : Kind)
+    (code : Code) (hparse : parseMacroInput o toks = .ok p) (hd : PlainInvocation p kind) (hgen : gen p kind = .ok code)
+    (t : Toks) (hh : p.handler = some (.then_, t)) (hdef : σ.handlerDef = .ok ()) (vs : List Value)
+    (h : (loopOf σ parent p kind).res = .ok (.vals vs)) :
+    (evalCode σ parent code).res = (σ.handlerCall vs).toRes ∧
+    (evalCode σ parent code).trace =
+      [.ev .handlerDef] ++ (loopOf σ parent p kind).trace ++ [.ev (.handlerCall vs)] := by
+  rw [accepted_eq_reference o toks σ parent p kind code hparse hd hgen, specRun_eq]
+  have hσ : (cfgFor σ parent p kind).σ = σ := rfl
+  generalize hl : loopOf σ parent p kind = l at h
+  obtain ⟨lt, lr⟩ := l
+  simp only at h
+  subst h
+  simp [handlerDefOf, hh, hdef, M.andThen, M.tell, M.lift, UR.toRes, specHandle, hσ]
+
 /-- A handler of the wrong kind for the macro is rejected at expansion time, and only then. -/
 theorem handler_kind_rejected (p : Input) (kind : Kind) :
     (gen p kind = .error .handlerNotTry ↔ (kind.isTry = false ∧ p.isMapOrAndThen = true)) ∧
